@@ -3,7 +3,7 @@ import os
 from vcommon import Check
 
 c = Check("C07")
-c.translate(needed=["Gen_C06.v"])
+c.translate(needed=["Gen_C06.v", "Gen_C06ccitt.v"])
 c.coq(["C07"], "C07", "Prop_C07.v")
 drv = c.model("C06")  # the models of coq/C06 are the independent codecs; C07 adds theorems about them
 h = c.harness("c07")
@@ -82,8 +82,10 @@ c.finish(
     trusted=[
         "models coq/C06/*.v written from ISO 32000-2 7.4 / PNG 9 / TIFF 6.0 section 14, extracted and used as independent codecs",
         "reference RunLength / ASCIIHex codecs in harness/c07/main.go",
-        "no independent CCITTFax encoder exists offline; Group 3 without EOL codes and Group 3 with EOL + byte alignment "
-        "have no referee (x/image/ccitt implements T.4 proper and aligns after the EOL code)",
+        "CCITTFax: x/image/ccitt (own code tables) reads the library's Group 4 and Group 3 (with EOL) output, incl. one image "
+        "per run length 0..2700 of either colour; Group 3 without EOL codes and Group 3 with EOL + byte alignment are outside "
+        "x/image/ccitt (T.4 proper; aligns after the EOL code) - there the Coq model of K = 0 (coq/C06/CCITT.v, tables "
+        "translated from the Go source and proved prefix-free / consistent, g3_1d_rt) is the referee, in both directions",
     ],
     partial=[
         "lzw_accepts_all (every code stream a conforming LZW encoder may emit) is not stated or proved; LZW interoperability "
